@@ -1007,8 +1007,38 @@ pub fn host(rep: &common::Report, prop: &str, thorough: bool) {
         cfgs.push(failing_discovery_cfg());
     }
     let visit = |s: &Situation| {
-        for (k, t) in judge(prop, s) {
-            rep.violation(common::Violation { key: k, text: format!("{t}; situation: {}", s.describe()), replay: s.replay(), weight: 6_000_000 + s.schedule.len() as u64 });
+        let first = judge(prop, s);
+        if first.is_empty() {
+            return;
+        }
+        // A finding is confirmed before it is reported: the same schedule, and the same clients alone, are run once
+        // more against fresh listeners, and only what is found both times counts. What the subject does wrong it does
+        // wrong again (the harness is deterministic at this granularity); a hiccup of a busy machine - a reply that
+        // took longer than a wait - does not come back.
+        let again = Situation {
+            cfg: s.cfg.clone(),
+            plans: s.plans.clone(),
+            schedule: s.schedule.clone(),
+            out: run_local(run_schedule(&s.cfg, &s.plans, &s.schedule)),
+            alone: s
+                .plans
+                .iter()
+                .map(|p| {
+                    let mut solo = p.clone();
+                    if solo.takes_others_token {
+                        solo.label.push_str(" (alone: 32 zero bytes)");
+                    }
+                    Arc::new(run_local(run_schedule(&s.cfg, std::slice::from_ref(&solo), &solo_schedule(&solo))))
+                })
+                .collect(),
+        };
+        let second = judge(prop, &again);
+        for (k, t) in first {
+            if second.iter().any(|(k2, _)| *k2 == k) {
+                rep.violation(common::Violation { key: k, text: format!("{t}; situation: {}", s.describe()), replay: s.replay(), weight: 6_000_000 + s.schedule.len() as u64 });
+            } else {
+                rep.add("world_findings_not_confirmed_by_a_second_run", 1);
+            }
         }
     };
     // every plan alone first (the references of the comparison are themselves judged)
